@@ -1490,6 +1490,10 @@ def _m_sorted(ctx, it, key=None, reverse=False):
     from .interp import PyExc
 
     def lt(a, b):
+        from .interp import SObj, Interp, Frame
+        import ast as _ast
+        if isinstance(a, SObj) or isinstance(b, SObj):
+            return Interp(ctx, Frame({})).compare(_ast.Lt(), a, b)      # the class's own __lt__ (e.g. total_ordering tokens)
         try:
             return a < b
         except TypeError as e:
